@@ -419,6 +419,43 @@ def w_history(case):
             'outcome': key_of(outcome), 'violations': viol}
 
 
+def w_pop_nids(case):
+    """Fixed population parameters are identified by NAME: fixing, then changing
+    the number of individuals (which changes the parameter set of heterogeneous
+    dimensions) keeps exactly the named parameters fixed."""
+    spec = case['spec']
+    a, b = case['n_before'], case['n_after']
+    viol = []
+    inner = popbuild.build(spec, a)
+    red = chi.ReducedPopulationModel(inner)
+    names_a = inner.get_parameter_names()
+    fixed = {names_a[i]: v for i, v in case['fix']}
+    red.fix_parameters(dict(fixed))
+    red.set_n_ids(b)
+    full_names = inner.get_parameter_names()
+    e_names = [n for n in full_names if n not in fixed]
+    if red.get_parameter_names() != e_names or red.n_parameters() != len(e_names):
+        viol.append({'sub': 'nids_names', 'message': 'after set_n_ids the reduced '
+                     'population model does not list the parameters that were not '
+                     'fixed by name', 'expected': e_names,
+                     'observed': [red.get_parameter_names(), red.n_parameters()],
+                     'behaviour': 'nids_names'})
+    else:
+        base = popvals.top_values(spec, b, 0)
+        full = np.array([fixed.get(n, base[i]) for i, n in enumerate(full_names)])
+        x = np.array([full[i] for i, n in enumerate(full_names) if n not in fixed])
+        obs = popvals.obs_values(spec, list(full), b, None, 0)
+        got = red.compute_log_likelihood(x, obs)
+        exp = popbuild.build(spec, b).compute_log_likelihood(full, obs)
+        if not tol.close(got, exp):
+            viol.append({'sub': 'nids_subst', 'message': 'after set_n_ids the '
+                         'reduced population model does not substitute the values '
+                         'fixed by name', 'expected': exp, 'observed': got,
+                         'behaviour': 'nids_subst'})
+    return {'transitions': 4, 'outcome': key_of([case, red.get_parameter_names()]),
+            'violations': viol}
+
+
 def ops_for(n, with_eval=True):
     ops = []
     for i in range(n):
@@ -433,7 +470,7 @@ def ops_for(n, with_eval=True):
     return ops
 
 
-WORKERS = {}
+WORKERS = {'pop_nids': w_pop_nids}
 ALL_KINDS = ['err:G', 'err:M', 'err:CM', 'err:LN', 'mech:toy', 'mech:sbml',
              'mech:toy:sens', 'mech:sbml:sens', 'll',
              'pred', 'poppred', 'ctrl'] + ['pop:' + k for k in POP_SPECS]
@@ -459,8 +496,22 @@ def build(tier, seed):
         'poppred', 'ctrl',
         'pop:G1', 'pop:comp', 'pop:cov', 'pop:H1']
     depth = 12   # the searches stop at closure (no new abstract state)
+    nids = []
+    for spec in [rp.Comp([rp.H(1), rp.LN(1)]), rp.Comp([rp.G(1), rp.H(1), rp.P(1)]),
+                 rp.Comp([rp.H(2), rp.G(1, False)]), rp.Comp([rp.LN(1), rp.H(1)])]:
+        for a, b in ((1, 2), (2, 3), (3, 1), (2, 2)):
+            n_a = rp.n_top(spec, a)
+            names_a = rp.names(spec, a)
+            names_b = set(rp.names(spec, b))
+            for i in range(n_a):
+                if names_a[i] in names_b:      # the parameter survives the change
+                    nids.append({'spec': spec, 'n_before': a, 'n_after': b,
+                                 'fix': [[i, 0.77]]})
+    from ..core.engine import Part
     return {
-        'parts': [], 'searches': [make_search(k, depth) for k in kinds],
+        'parts': [Part('pop_nids', nids, w_pop_nids,
+                       'fix by name, then change the number of individuals')],
+        'searches': [make_search(k, depth) for k in kinds],
         'bounds': {'objects': kinds, 'values_per_parameter': ['free', 'v1', 'v2'],
                    'max_parameters': 7},
         'rule': 'BFS to closure over abstract states (parameter -> free/v1/v2); '
